@@ -139,14 +139,20 @@ def render_arm(arm, ind):
 
 
 def build(toks, k):
-    """-> (source text, flat tree)"""
+    """-> (source text, flat tree). Two prologues: x and y declared first (the body then never starts the definition), or x and y
+    as parameters, so that the first statement of the body - possibly a loop or a branch - is the first statement of the definition."""
     body = parse(toks)
-    root = {"k": "blk", "braced": True,
-            "ss": [{"k": "s", "id": 4, "w": "x", "r": ""}, {"k": "s", "id": 7, "w": "y", "r": ""}] + body + [{"k": "r", "id": 9}]}
+    as_params = bool(body) and (body[0]["k"] in ("wh", "if", "ife", "blk") or k % 4 == 0)
+    pro = [] if as_params else [{"k": "s", "id": 4, "w": "x", "r": ""}, {"k": "s", "id": 7, "w": "y", "r": ""}]
+    root = {"k": "blk", "braced": True, "ss": pro + body + [{"k": "r", "id": 9}]}
     b = Builder(k)
     b.flat(root, 0)
     # render after numbering; a rewritten dangling-else arm changes `braced` only (same tree)
-    text = "function f(p0) {\n  var x = 4;\n  var y = 7;\n" + "".join(render_stmt(s, 1) for s in body)
+    if as_params:
+        text = "function f(p0, x, y) {\n"
+    else:
+        text = "function f(p0) {\n  var x = 4;\n  var y = 7;\n"
+    text += "".join(render_stmt(s, 1) for s in body)
     text += "  return x + y + 9;\n}\n"
     return text, b.nodes
 
